@@ -3,6 +3,6 @@
    sumor mapped to OCaml's own types; andb/orb inlined).  No Extract Constant / Extract
    Inductive of our own: N, Z, positive and nat stay Coq's inductive types. *)
 From Coq Require Import Extraction ExtrOcamlBasic.
-From Verif Require Import Inflate Compressor Reader Checked Containers Oracle ContainerW.
+From Verif Require Import Inflate Compressor Reader Checked Containers Oracle ContainerW Engine.
 Extraction Language OCaml.
-Extraction "model.ml" inflate wrun_checked rrun gz_read zl_read orun cwrun.
+Extraction "model.ml" inflate wrun_checked rrun gz_read zl_read orun cwrun erun_obs.
